@@ -767,6 +767,13 @@ TYPED = [
         ("wait_interest_compare", "iv_wait_interest_compare", ("fn",), {"#opaque_init": ["a", "b"]}),
         ("wait_find_hit", "__iv_wait_interest_find", ("cond", "if", 0), {}),
         ("wait_find_left", "__iv_wait_interest_find", ("cond", "if", 1), {}),
+        # round 9: the reaper's wait4 call and loop exit, the routing test, the DEAD guards of kill / unregister
+        ("wait_reap_which", "iv_wait_got_sigchld", ("arg", "wait4", 0, 0), {}),
+        ("wait_reap_opts", "iv_wait_got_sigchld", ("arg", "wait4", 0, 2), {}),
+        ("wait_reap_none", "iv_wait_got_sigchld", ("cond", "if", 0), {}),
+        ("wait_reap_known", "iv_wait_got_sigchld", ("cond", "if", 3), {}),
+        ("wait_kill_alive", "iv_wait_interest_kill", ("cond", "if", 0), {}),
+        ("wait_unreg_in_tree", "iv_wait_interest_unregister", ("cond", "if", 0), {}),
     ]),
     # ---- index arithmetic and guards of the timer heap (linked to Timer/HeapModel.v by Timer/HeapLink.v) ----
     ("LeafHeap.v", "iv_timer.c", [
